@@ -58,3 +58,27 @@ Proof. unfold cspec. simpl. pose proof cis0_true as E. destruct (cis0 0); [|disc
 (* all branches open: the connection is open *)
 Lemma all_open : cspec (CPar [Leaf 0; Leaf 1]) (two (@Inf C) (@Inf C)) = Inf.
 Proof. unfold cspec. simpl. auto. Qed.
+
+(* ---- nested series connections may be merged (what the parser does): the pointwise law is unchanged -------------------------- *)
+Lemma cez_add_assoc (a b c : ez C) : ez_add C Cplus (ez_add C Cplus a b) c = ez_add C Cplus a (ez_add C Cplus b c).
+Proof. destruct a, b, c; simpl; auto. f_equal. ring. Qed.
+Lemma cez_add_0_l (a : ez C) : ez_add C Cplus (Zf (RtoC 0)) a = a.
+Proof. destruct a; simpl; auto. f_equal. ring. Qed.
+
+Lemma ser_fold_acc (leaf : nat -> ez C) l : forall acc,
+  fold_left (fun a c => ez_add C Cplus a (cspec c leaf)) l acc
+  = ez_add C Cplus acc (fold_left (fun a c => ez_add C Cplus a (cspec c leaf)) l (Zf (RtoC 0))).
+Proof.
+  induction l as [|x l IH]; intro acc; cbn [fold_left].
+  - destruct acc; simpl; auto. f_equal. ring.
+  - rewrite (IH (ez_add C Cplus acc (cspec x leaf))). rewrite (IH (ez_add C Cplus (Zf (RtoC 0)) (cspec x leaf))).
+    rewrite cez_add_0_l. apply cez_add_assoc.
+Qed.
+
+Theorem series_flatten (leaf : nat -> ez C) (a l b : list ctree) :
+  cspec (CSer (a ++ CSer l :: b)) leaf = cspec (CSer (a ++ l ++ b)) leaf.
+Proof.
+  unfold cspec. cbn [spec]. rewrite !fold_left_app. cbn [fold_left spec]. fold cspec.
+  set (A := fold_left (fun acc c => ez_add C Cplus acc (spec C (RtoC 0) Cplus Cinv cis0 c leaf)) a (Zf (RtoC 0))).
+  f_equal. symmetry. apply ser_fold_acc.
+Qed.
